@@ -61,6 +61,8 @@ type Contract struct {
 	Notes     []string
 	Shared    bool
 	Allows    map[string]string
+	Assumes   []*Clause
+	RecoversFirst bool
 }
 
 type GhostDecl struct {
@@ -118,7 +120,7 @@ type ContractFile struct {
 	Pure      map[string]bool
 }
 
-var clauseKeywords = map[string]bool{"allows": true, "requires": true, "ensures": true, "modifies": true, "loop": true, "at": true, "inline": true,
+var clauseKeywords = map[string]bool{"recovers-first": true, "assumes": true, "allows": true, "requires": true, "ensures": true, "modifies": true, "loop": true, "at": true, "inline": true,
 	"trusted": true, "decreases": true, "allocates": true, "note": true, "shared": true}
 
 func parseContractFile(path, pkgPath string) (*ContractFile, error) {
@@ -311,6 +313,13 @@ func (cf *ContractFile) addClause(c *Contract, kw, text, path string, line int) 
 			return err
 		}
 		c.Ensures = append(c.Ensures, cl)
+	case "assumes":
+		// a postcondition that callers may use but that is not checked against the body (listed as an assumption)
+		cl, err := mk(text)
+		if err != nil {
+			return err
+		}
+		c.Assumes = append(c.Assumes, cl)
 	case "modifies":
 		for _, part := range splitTop(text, ',') {
 			part = strings.TrimSpace(part)
@@ -334,6 +343,8 @@ func (cf *ContractFile) addClause(c *Contract, kw, text, path string, line int) 
 			c.Allows = map[string]string{}
 		}
 		c.Allows[site] = reason
+	case "recovers-first":
+		c.RecoversFirst = true
 	case "inline":
 		c.Inline = true
 	case "trusted":
@@ -654,6 +665,7 @@ type CEnv struct {
 	old    *State
 	locals func(name string, st *State) (Value, types.Type, bool)
 	where  string
+	qdepth int
 }
 
 func (e *CEnv) fail(format string, a ...interface{}) {
@@ -1132,7 +1144,7 @@ func (e *CEnv) evalCall(n *ast.CallExpr) (Value, types.Type) {
 					if !ok {
 						e.fail("quantified variable %s must have a scalar type", nm.Name)
 					}
-					bv := B.BoundVar(nm.Name, srt)
+					bv := B.CanonBoundVar(nm.Name, srt, e.qdepth)
 					bound = append(bound, bv)
 					ne = ne.with(nm.Name, Scalar{bv}, tt.T)
 					if srt == SStr {
@@ -1142,7 +1154,27 @@ func (e *CEnv) evalCall(n *ast.CallExpr) (Value, types.Type) {
 			}
 			ret := fl.Body.List[0].(*ast.ReturnStmt)
 			ne.where = e.where
+			ne.qdepth = e.qdepth + 1
+			p.bvFacts = append(p.bvFacts, nil)
 			body := ne.evalBoolArg(ret.Results[0])
+			facts := p.bvFacts[len(p.bvFacts)-1]
+			p.bvFacts = p.bvFacts[:len(p.bvFacts)-1]
+			// facts that still mention an outer bound variable go to the enclosing quantifier
+			var mine []*Term
+			inner := map[int]bool{}
+			for _, b := range bound {
+				inner[b.id] = true
+			}
+			for _, f := range facts {
+				if hasOuterBound(f, inner, map[int]bool{}) {
+					if n := len(p.bvFacts); n > 0 {
+						p.bvFacts[n-1] = append(p.bvFacts[n-1], f)
+					}
+					continue
+				}
+				mine = append(mine, f)
+			}
+			_ = mine // type-invariant facts about quantified terms are dropped (they would tie the formula to one state's allocation counter)
 			if id.Name == "__forall" {
 				return Scalar{Forall(bound, Implies(And(guards...), body))}, boolT
 			}
@@ -1370,6 +1402,16 @@ func (e *CEnv) callFunc(obj *types.Func, args []Value, sig *types.Signature) (Va
 	}
 	fn := p.eng.prog.FuncValue(obj)
 	if fn == nil {
+		// interface method: use the assumed contract of the interface method, if any
+		if recv := sig.Recv(); recv != nil {
+			if _, isIface := recv.Type().Underlying().(*types.Interface); isIface {
+				key := "iface:" + typeKey(recv.Type()) + "." + obj.Name()
+				if h := p.eng.libHandler(key); h != nil {
+					fr := &Frame{p: p, fn: e.fn, sites: map[ssa.Instruction]map[string]int{}}
+					return h(fr, nil, e.st, args, rt), rt
+				}
+			}
+		}
 		e.fail("no SSA for function %s", obj.FullName())
 	}
 	key := funcKey(fn)
@@ -1528,26 +1570,47 @@ func (e *CEnv) havocLvalue(cl *Clause, st *State) {
 		fr.store(nil, st, pv, nv, elem)
 		return
 	case *ast.SelectorExpr:
-		v, t := e.eval(n.X)
-		pt, ok := t.Underlying().(*types.Pointer)
-		if !ok {
-			e.fail("modifies x.f needs x to be a pointer")
+		// x.f.g...: find the innermost prefix that is a pointer, then follow value fields
+		var names []string
+		var cur ast.Expr = n
+		var v Value
+		var t types.Type
+		for {
+			s, ok := cur.(*ast.SelectorExpr)
+			if !ok {
+				e.fail("modifies x.f needs x to be a pointer")
+			}
+			names = append([]string{s.Sel.Name}, names...)
+			bv, bt := e.eval(s.X)
+			if _, isPtr := bt.Underlying().(*types.Pointer); isPtr {
+				v, t = bv, bt
+				break
+			}
+			cur = s.X
 		}
+		pt := t.Underlying().(*types.Pointer)
 		pv, ok := v.(PtrV)
 		if !ok {
 			e.fail("modifies x.f: x is %T", v)
 		}
-		obj, index, _ := types.LookupFieldOrMethod(pt.Elem(), true, e.pkgOf(pt.Elem()), n.Sel.Name)
-		if obj == nil {
-			e.fail("no field %s", n.Sel.Name)
-		}
 		var root types.Type = pt.Elem()
 		path := ""
 		ft := root
-		for _, i := range index {
-			u := ft.Underlying().(*types.Struct)
-			path += "." + fieldName(u, i)
-			ft = u.Field(i).Type()
+		var index []int
+		for _, nm := range names {
+			obj, idx, _ := types.LookupFieldOrMethod(ft, true, e.pkgOf(ft), nm)
+			if obj == nil {
+				e.fail("no field %s", nm)
+			}
+			for _, i := range idx {
+				u, ok := ft.Underlying().(*types.Struct)
+				if !ok {
+					e.fail("modifies: cannot cross a pointer inside the path at %s", nm)
+				}
+				path += "." + fieldName(u, i)
+				ft = u.Field(i).Type()
+				index = append(index, i)
+			}
 		}
 		var ref *Term
 		switch pv.Kind {
@@ -1570,6 +1633,44 @@ func (e *CEnv) havocLvalue(cl *Clause, st *State) {
 		p.storeObj(st, root, ref, path, ft, nv)
 		return
 	case *ast.CallExpr:
+		if id, ok := n.Fun.(*ast.Ident); ok && id.Name == "maps" {
+			// maps(K, V): the contents of every map of this type may change
+			kv, _ := e.eval(n.Args[0])
+			vv, _ := e.eval(n.Args[1])
+			kt, ok1 := kv.(typeV)
+			vt, ok2 := vv.(typeV)
+			if !ok1 || !ok2 {
+				e.fail("maps(K, V) needs two types")
+			}
+			m := MapV{K: kt.T, V: vt.T}
+			ks := keySorts(m.K)
+			dk := mapDomKey(m)
+			p.heapCell(st, dk, SArr(SRef, nestedArr(ks, SBool)))
+			st.Heap[dk] = B.Fresh("mod.mapdom", SArr(SRef, nestedArr(ks, SBool)))
+			for _, l := range leavesOf(m.V) {
+				vk := mapValKey(m, l.Path)
+				p.heapCell(st, vk, SArr(SRef, nestedArr(ks, l.Sort)))
+				st.Heap[vk] = B.Fresh("mod.mapval", SArr(SRef, nestedArr(ks, l.Sort)))
+			}
+			return
+		}
+		if id, ok := n.Fun.(*ast.Ident); ok && id.Name == "entries" {
+			v, _ := e.eval(n.Args[0])
+			m, ok := v.(MapV)
+			if !ok {
+				e.fail("entries needs a map")
+			}
+			ks := keySorts(m.K)
+			dk := mapDomKey(m)
+			dc := p.heapCell(st, dk, SArr(SRef, nestedArr(ks, SBool)))
+			st.Heap[dk] = Store(dc, m.Ref, B.Fresh("mod.mapdom", nestedArr(ks, SBool)))
+			for _, l := range leavesOf(m.V) {
+				vk := mapValKey(m, l.Path)
+				vc := p.heapCell(st, vk, SArr(SRef, nestedArr(ks, l.Sort)))
+				st.Heap[vk] = Store(vc, m.Ref, B.Fresh("mod.mapval", nestedArr(ks, l.Sort)))
+			}
+			return
+		}
 		if id, ok := n.Fun.(*ast.Ident); ok && id.Name == "elems" {
 			v, _ := e.eval(n.Args[0])
 			s, ok := v.(SliceV)
@@ -1586,4 +1687,89 @@ func (e *CEnv) havocLvalue(cl *Clause, st *State) {
 		}
 	}
 	e.fail("unsupported modifies item")
+}
+
+// lvalueTargets resolves a modifies item to the heap cells and the single object it designates, without
+// changing any state. ok=false for items that are not a single object (heap, ghosts, globals, locals).
+func (e *CEnv) lvalueTargets(cl *Clause) (keys []string, ref *Term, ok bool) {
+	defer func() {
+		if r := recover(); r != nil {
+			keys, ref, ok = nil, nil, false
+		}
+	}()
+	e.where = "modifies " + cl.Src
+	switch n := cl.Expr.(type) {
+	case *ast.SelectorExpr:
+		var names []string
+		var cur ast.Expr = n
+		var v Value
+		var t types.Type
+		for {
+			s, isSel := cur.(*ast.SelectorExpr)
+			if !isSel {
+				return nil, nil, false
+			}
+			names = append([]string{s.Sel.Name}, names...)
+			bv, bt := e.eval(s.X)
+			if _, isPtr := bt.Underlying().(*types.Pointer); isPtr {
+				v, t = bv, bt
+				break
+			}
+			cur = s.X
+		}
+		pv, isP := v.(PtrV)
+		if !isP || pv.Kind != KObj {
+			return nil, nil, false
+		}
+		root := t.Underlying().(*types.Pointer).Elem()
+		path := ""
+		ft := root
+		for _, nm := range names {
+			obj, idx, _ := types.LookupFieldOrMethod(ft, true, e.pkgOf(ft), nm)
+			if obj == nil {
+				return nil, nil, false
+			}
+			for _, i := range idx {
+				u, isS := ft.Underlying().(*types.Struct)
+				if !isS {
+					return nil, nil, false
+				}
+				path += "." + fieldName(u, i)
+				ft = u.Field(i).Type()
+			}
+		}
+		for _, l := range leavesOf(ft) {
+			keys = append(keys, objKey(root, path+l.Path))
+		}
+		return keys, pv.Ref, true
+	case *ast.CallExpr:
+		id, isId := n.Fun.(*ast.Ident)
+		if !isId {
+			return nil, nil, false
+		}
+		switch id.Name {
+		case "entries":
+			v, _ := e.eval(n.Args[0])
+			m, isM := v.(MapV)
+			if !isM {
+				return nil, nil, false
+			}
+			keys = append(keys, mapDomKey(m))
+			for _, l := range leavesOf(m.V) {
+				keys = append(keys, mapValKey(m, l.Path))
+			}
+			return keys, m.Ref, true
+		case "elems":
+			v, _ := e.eval(n.Args[0])
+			s, isS := v.(SliceV)
+			if !isS {
+				return nil, nil, false
+			}
+			for _, l := range leavesOf(s.Elem) {
+				keys = append(keys, elemsKey(s.Elem, l.Path))
+			}
+			return keys, s.Ref, true
+		}
+	}
+	return nil, nil, false
 }
